@@ -32,7 +32,7 @@ class Prop(BaseProp):
     HEADLINE = ["pages_checked", "single_file_pages", "module_doc_pages", "titles_compared_for_injectivity"]
 
     def n_cases(self, tier):
-        return 400 if tier == "quick" else 6000
+        return 2500 if tier == "quick" else 25000
 
     def setup_worker(self):
         runner.cminx()
@@ -109,7 +109,7 @@ class Prop(BaseProp):
         prefix_src = rng.choice(["none", "none", "cli", "config"])
         prefix = None if prefix_src == "none" else rng.choice(["Pfx", "my.pkg", "A B", "p-1", "Prä✓", "日本"])
         single = idx % 3 == 0
-        res.sig = sig_hash([single, sep, ext_t, ext_m, len(headers), prefix_src])
+        res.sig = sig_hash([single, sep, ext_t, ext_m, len(headers), prefix_src, prefix])
         res.see("separators", sep)
         res.see("prefix_sources", prefix_src)
         with runner.sandbox() as sb:
@@ -137,6 +137,8 @@ class Prop(BaseProp):
                 o = runner.run_main([arg] + base_argv, cwd=cwd, home=home)
                 wit = {"argv": [arg] + base_argv, "cwd": cwd, "text": text, "settings": rstcfg}
                 res.nontrivial = True
+                res.sig = sig_hash(["single", sep, ext_t, ext_m, len(headers), prefix_src, prefix, fname, cwd == d, os.path.isabs(arg),
+                                    bool(mdoc), bool(mdoc and mdoc["name"])])
                 if not o.ok:
                     res.violate(o.crash_class() or f"exit:{o.exit_code}", str(o.exc)[:200], wit)
                     return res
@@ -182,6 +184,8 @@ class Prop(BaseProp):
                 if not (mdocs[p] and mdocs[p]["name"]):
                     titles.setdefault(t, []).append(p)
                     res.count("titles_compared_for_injectivity")
+            res.sig = sig_hash([sep, ext_t, ext_m, len(headers), prefix_src, prefix, tree.shape(),
+                                sorted((k, bool(v), bool(v and v["name"])) for k, v in mdocs.items())])
             for t, ps in titles.items():
                 if len(ps) > 1:
                     res.violate("titles-collide", f"{ps} all titled {t!r}", wit)
